@@ -74,6 +74,11 @@ def r_invariant(program, rep):
               construct="__init__ offset 0", node=fn)
 
 
+# integer constants of the standard library a seek may be written with
+_STD_INTS = {"os.SEEK_SET": 0, "os.SEEK_CUR": 1, "os.SEEK_END": 2,
+             "io.SEEK_SET": 0, "io.SEEK_CUR": 1, "io.SEEK_END": 2}
+
+
 def r1_confinement(program, rep, inline):
     n_sites = 0
     props, meths = inline
@@ -306,7 +311,7 @@ def r3_seek(program, rep, inline):
     for k in (0, 1, 2):
         it = Interp(fn, entry_cons=eq(W, k) + eq(OFF, off0) + [le(S, E)],
                     inline_props=props, inline_methods=meths,
-                    candidates=eq(OFF, spec[k]))
+                    candidates=eq(OFF, spec[k]), consts=_STD_INTS.get)
         ex = it.cfg.exit
         if not it.reachable(ex):
             rep.bad("C13-R3", inst, "whence %d rejected" % k,
@@ -329,7 +334,7 @@ def r3_seek(program, rep, inline):
     for label, cons in (("whence < 0", [le(W, -1)]),
                         ("whence > 2", [le(3, W)])):
         it = Interp(fn, entry_cons=cons, inline_props=props,
-                    inline_methods=meths)
+                    inline_methods=meths, consts=_STD_INTS.get)
         rep.check(not it.reachable(it.cfg.exit), "C13-R3", inst,
                   "%s is rejected (no normal return)" % label,
                   construct="invalid %s accepted" % label, node=fn)
